@@ -19,6 +19,9 @@ func (e *Exec) BuildSMT(asserts []*Term, getvals []*Term) string {
 	for _, a := range e.Axioms {
 		refs = append(refs, p.Ref(a))
 	}
+	for _, a := range e.S.ShareAxioms() {
+		refs = append(refs, p.Ref(a))
+	}
 	for _, a := range asserts {
 		refs = append(refs, p.Ref(a))
 	}
